@@ -84,11 +84,22 @@ class AbstractOnlineUpdateVisitor(AbstractAstVisitor):
         self.results[node] = sample_return
         return sample_return
 
+    def reuse(self, node, online_operator_dict, var_object_dict):
+        # The operation of this (repeated) sub-formula was already stepped during
+        # the current update: record its value for this node and for the nodes
+        # below it (get_value() looks results up by node), without stepping again.
+        for child in node.children:
+            if child.name in self.updated:
+                self.reuse(child, online_operator_dict, var_object_dict)
+            else:
+                self.visit(child, online_operator_dict, var_object_dict)
+        sample_return = self.updated[node.name]
+        self.results[node] = sample_return
+        return sample_return
+
     def visitBinary(self, node, online_operator_dict, var_object_dict):
         if node.name in self.updated:
-            sample_return = self.updated[node.name]
-            self.results[node] = sample_return
-            return sample_return
+            return self.reuse(node, online_operator_dict, var_object_dict)
         sample_left  = self.visit(node.children[0], online_operator_dict, var_object_dict)
         sample_right = self.visit(node.children[1], online_operator_dict, var_object_dict)
         operator = online_operator_dict[node.name]
@@ -99,9 +110,7 @@ class AbstractOnlineUpdateVisitor(AbstractAstVisitor):
 
     def visitUnary(self, node, online_operator_dict, var_object_dict):
         if node.name in self.updated:
-            sample_return = self.updated[node.name]
-            self.results[node] = sample_return
-            return sample_return
+            return self.reuse(node, online_operator_dict, var_object_dict)
         sample = self.visit(node.children[0], online_operator_dict, var_object_dict)
         op = online_operator_dict[node.name]
         sample_return = op.update(sample)
